@@ -1,3 +1,227 @@
+"""C12 part 2: SendLock.tla behaviours replayed on the real clients (exact projection after every action)."""
+
 from __future__ import annotations
-def run(chk): pass
-def replay(data): return 0
+
+import asyncio
+import os
+import tempfile
+from collections.abc import Generator
+from typing import Any
+
+from .. import graph, harness, memtransport, tlc, vloop
+from ..common import Check
+
+
+def _serializer(nchunks: int) -> Any:
+    from easynetwork.serializers.abc import AbstractIncrementalPacketSerializer
+
+    class ChunkedSerializer(AbstractIncrementalPacketSerializer[tuple[int, int], tuple[int, int]]):
+        """A packet (sender, n) is written as `nchunks` chunks 's.n.k;'."""
+
+        def incremental_serialize(self, packet: tuple[int, int]) -> Generator[bytes, None, None]:
+            for k in range(1, nchunks + 1):
+                yield b"%d.%d.%d;" % (packet[0], packet[1], k)
+
+        def incremental_deserialize(self) -> Generator[None, bytes, tuple[tuple[int, int], bytes]]:
+            buf = b""
+            while buf.count(b";") < nchunks:
+                buf += yield
+            parts = buf.split(b";", nchunks)
+            s, n, _ = parts[0].split(b".")
+            return (int(s), int(n)), parts[-1]
+
+    return ChunkedSerializer()
+
+
+def _decode(chunk: bytes) -> tuple[int, int, int]:
+    s, n, k = chunk.rstrip(b";").split(b".")
+    return int(s), int(n), int(k)
+
+
+class _Target:
+    """One object under test with N concurrent callers of send_packet; built inside a running loop."""
+
+    name = "?"
+
+    def __init__(self, senders: list[int], nchunks: int) -> None:
+        self.senders = senders
+        self.nchunks = nchunks
+        self.gates = {s: harness.Gate() for s in senders}
+        self.tasks: dict[int, asyncio.Task[None] | None] = {s: None for s in senders}
+        self.pkt = {s: 1 for s in senders}
+        self.ncalls_done = {s: 0 for s in senders}
+        self.wire: list[tuple[int, int, int]] = []
+        self.errors: list[str] = []
+
+    async def send_hook(self, data: bytes) -> None:
+        s, _, _ = _decode(data)
+        await self.gates[s].pass_()
+        self.wire.append(_decode(data))
+
+    async def send(self, packet: tuple[int, int]) -> None:
+        raise NotImplementedError
+
+    async def setup(self) -> None:
+        raise NotImplementedError
+
+    async def teardown(self) -> None:
+        pass
+
+    async def _call(self, s: int, n: int) -> None:
+        await self.send((s, n))
+
+    async def apply(self, action: str, args: tuple[Any, ...], pkts_per: int) -> None:
+        (s,) = args
+        if action == "Call":
+            self.tasks[s] = asyncio.get_running_loop().create_task(self._call(s, self.pkt[s]))
+        elif action == "Send":
+            if self.gates[s].waiting() != 1:
+                raise AssertionError(f"sender {s} should be suspended in the transport, but {self.gates[s].waiting()} calls are")
+            self.gates[s].open_once()
+        elif action == "Cancel":
+            t = self.tasks[s]
+            assert t is not None
+            t.cancel()
+        await harness.settle()
+        # collect finished calls
+        for s2, t in self.tasks.items():
+            if t is not None and t.done():
+                self.tasks[s2] = None
+                self.pkt[s2] += 1
+                if t.cancelled():
+                    if not (action == "Cancel" and s2 == s):
+                        raise AssertionError(f"send_packet of sender {s2} was cancelled although nobody cancelled it")
+                elif t.exception() is not None:
+                    raise AssertionError(f"send_packet of sender {s2} raised {t.exception()!r}")
+                elif action == "Cancel" and s2 == s:
+                    raise AssertionError("cancelled queued send_packet completed normally")
+
+    def project(self, pkts_per: int) -> dict[str, Any]:
+        pc = []
+        holder = 0
+        for s in self.senders:
+            t = self.tasks[s]
+            if t is None:
+                pc.append("done" if self.pkt[s] > pkts_per else "idle")
+            elif self.gates[s].waiting():
+                pc.append("sending")
+                holder = s if holder == 0 else -1
+            else:
+                pc.append("queued")
+        return {"pc": tuple(pc), "holder": holder, "wire": tuple(self.wire)}
+
+
+class _AsyncTCPClientTarget(_Target):
+    name = "AsyncTCPNetworkClient.send_packet"
+
+    async def setup(self) -> None:
+        from easynetwork.clients.async_tcp import AsyncTCPNetworkClient
+        from easynetwork.protocol import StreamProtocol
+
+        self.backend = harness.HarnessBackend()
+        self.sock, self.peer_sock = harness.loopback_tcp_pair()
+        rx, tx = memtransport.MemPipe(), memtransport.MemPipe()
+        self.transport = memtransport.MemStreamTransport(
+            self.backend, rx, tx, extra=harness.socket_extra(self.sock), send_hook=self.send_hook
+        )
+        self.backend.stream_factory = lambda sock: self.transport
+        self.client = AsyncTCPNetworkClient(self.sock, StreamProtocol(_serializer(self.nchunks)), backend=self.backend)
+        await self.client.wait_connected()
+
+    async def send(self, packet: tuple[int, int]) -> None:
+        await self.client.send_packet(packet)
+
+    async def teardown(self) -> None:
+        for t in self.tasks.values():
+            if t is not None:
+                t.cancel()
+        await harness.settle()
+        try:
+            await self.client.aclose()
+        finally:
+            self.sock.close()
+            self.peer_sock.close()
+
+
+TARGETS: list[type[_Target]] = [_AsyncTCPClientTarget]
+
+
+def _cfg(path: str, nsenders: int, nchunks: int, pkts: int, maxcancel: int, liveness: bool) -> dict[str, str]:
+    consts = {
+        "Senders": "{" + ", ".join(str(i) for i in range(1, nsenders + 1)) + "}",
+        "NChunks": str(nchunks),
+        "PktsPer": str(pkts),
+        "MaxCancel": str(maxcancel),
+    }
+    tlc.write_cfg(
+        path,
+        constants=consts,
+        invariants=["Contiguous", "ExactlyOnce", "SenderOrder", "HolderConsistent", "NeverWritten", "AllSent"],
+        properties=["Terminates"] if liveness else [],
+        check_deadlock=True,
+    )
+    return consts
+
+
+async def _run_path(target_cls: type[_Target], g: graph.Graph, path: graph.Path, nsenders: int, nchunks: int, pkts: int) -> tuple[list[str], str | None, list[str]]:
+    tgt = target_cls(list(range(1, nsenders + 1)), nchunks)
+    await tgt.setup()
+    done: list[str] = []
+    try:
+        for action, args, dst in path:
+            if not args:
+                continue  # terminal stuttering
+            label = f"{action}({args[0]})"
+            done.append(label)
+            try:
+                await tgt.apply(action, args, pkts)
+            except AssertionError as exc:
+                return done, str(exc), ["error"]
+            got = tgt.project(pkts)
+            want = g.states[dst]
+            bad = [k for k in got if got[k] != want[k]]
+            if bad:
+                return done, "; ".join(f"{k}: impl={got[k]!r} spec={want[k]!r}" for k in bad), sorted(bad)
+        return done, None, []
+    finally:
+        await tgt.teardown()
+
+
+def run(chk: Check) -> None:
+    quick = chk.tier == "quick"
+    nsenders, nchunks, pkts, maxcancel = (3, 2, 1, 1) if quick else (3, 2, 2, 2)
+    with tempfile.TemporaryDirectory(prefix="vf_c12b_") as d:
+        cfg = os.path.join(d, "sl.cfg")
+        consts = _cfg(cfg, *((3, 2, 2, 2) if quick else (3, 3, 2, 2)), liveness=True)
+        res = tlc.run_tlc("SendLock", cfg, coverage=True)
+        chk.add_model("SendLock", res, consts, "contiguity, exactly-once, per-sender order, termination")
+        if not res.ok:
+            chk.model_violation("SendLock", res, consts)
+            return
+        cfg2 = os.path.join(d, "sl2.cfg")
+        consts2 = _cfg(cfg2, nsenders, nchunks, pkts, maxcancel, liveness=False)
+        g, _ = graph.dump_graph("SendLock", cfg2)
+    paths = graph.edge_cover_paths(g, seed=chk.seed)
+    info: dict[str, Any] = {"graph_states": len(g.states), "graph_edges": g.nedges, "behaviours": len(paths), "constants": consts2, "targets": {}}
+    for target_cls in TARGETS:
+        n = 0
+        for _root, path in paths:
+            done, err, bad = vloop.run(lambda: _run_path(target_cls, g, path, nsenders, nchunks, pkts))
+            n += 1
+            chk.traces += 1
+            chk.distinct.add((target_cls.name, tuple(done)))
+            if err is not None:
+                chk.violation(
+                    {"kind": "replay", "target": target_cls.name, "vars": bad},
+                    f"{target_cls.name} diverges from SendLock after {' '.join(done)}: {err}",
+                    {"kind": "sendlock_path", "target": target_cls.name, "path": done, "constants": [nsenders, nchunks, pkts]},
+                )
+            elif len(done) >= 8:
+                chk.sample({"target": target_cls.name, "behaviour": done}, cap=6)
+        info["targets"][target_cls.name] = n
+    chk.extra["sendlock_replay"] = info
+
+
+def replay(data: dict[str, Any]) -> int:
+    print("re-run the check: SendLock replays are deterministic; path =", data["replay"].get("path"))
+    return 0
